@@ -62,7 +62,7 @@ func (pdb *PebbleKV) DeletePrefix(prefix []byte) error {
 		found = false
 		wb := make([][]byte, 0, deleteBlockSize)
 		it := pdb.db.NewIter(&pebble.IterOptions{LowerBound: prefix})
-		for ; it.Valid() && bytes.HasPrefix(it.Key(), prefix) && len(wb) < deleteBlockSize-1; it.Next() {
+		for valid := it.First(); valid && bytes.HasPrefix(it.Key(), prefix) && len(wb) < deleteBlockSize-1; valid = it.Next() {
 			wb = append(wb, copyBytes(it.Key()))
 		}
 		it.Close()
@@ -80,10 +80,10 @@ func (pdb *PebbleKV) DeletePrefix(prefix []byte) error {
 // HasKey returns true if the key is exists in kvstore
 func (pdb *PebbleKV) HasKey(id []byte) bool {
 	_, c, err := pdb.db.Get(id)
-	c.Close()
 	if err != nil {
 		return false
 	}
+	c.Close()
 	return true
 }
 
@@ -106,10 +106,10 @@ type pebbleTransaction struct {
 
 func (ptx pebbleTransaction) HasKey(id []byte) bool {
 	_, c, err := ptx.db.Get(id)
-	c.Close()
 	if err != nil {
 		return false
 	}
+	c.Close()
 	return true
 }
 
@@ -196,11 +196,18 @@ func (pit *pebbleIterator) Seek(id []byte) error {
 // Seek moves the iterator to a new location
 func (pit *pebbleIterator) SeekReverse(id []byte) error {
 	pit.forward = false
-	if !pit.iter.SeekGE(id) {
-		return io.EOF
+	valid := false
+	if pit.iter.SeekGE(id) {
+		valid = true
+		if bytes.Compare(id, pit.iter.Key()) < 0 {
+			valid = pit.iter.Prev()
+		}
+	} else {
+		//every key is below id, start from the last one
+		valid = pit.iter.Last()
 	}
-	if bytes.Compare(id, pit.iter.Key()) < 0 {
-		pit.iter.Prev()
+	if !valid {
+		return io.EOF
 	}
 	pit.key = copyBytes(pit.iter.Key())
 	pit.value = copyBytes(pit.iter.Value())
